@@ -5,7 +5,7 @@
    public entry point Resolve recovers it into an error).  Definitions only. *)
 From Coq Require Import String Ascii.
 From Formula Require Export Sem.Builtins Syn.Ast.
-From Formula Require Import Lex.CaseMap.
+From Formula Require Import Lex.CaseMap Num.Sqrt.
 
 (* a host function of the data map: signature, the value it returns, whether it returns an error *)
 Record hostfn := mkHost { h_sig : gosig; h_result : value; h_fail : bool }.
@@ -186,11 +186,12 @@ Definition builtin_apply (local_off : Z) (name : list Z) (args : list value) : o
     else if name_is name "round" then Ok (VNum (round_to_int 2 d))
     else if name_is name "roundBank" then Ok (VNum (round_to_int 1 d))
     else if name_is name "finite" then Ok (VNum (if is_finite d then d else dec_zero))
-    else if name_is name "toString" then Ok (VStr (dec_to_string d))
+    else if name_is name "toString" then (if is_nan d then Unk else Ok (VStr (dec_to_string d)))   (* the digits after "NaN" (the library prints a diagnostic payload) are not modelled *)
     else if name_is name "toInt" then (match to_i64_opt d with Some a => Ok (VNum (dec_of_Z a)) | None => Unk end)
     else if name_is name "toFloat" then Ok (VNum d)
     else if name_is name "max" || name_is name "min" then Ok (VNum d)
-    else Unk                                             (* exp ln log sqrt: not modelled *)
+    else if name_is name "sqrt" then Ok (VNum (dec_sqrt16 d))   (* the correctly rounded root; the library is within one unit of the 16th digit of it *)
+    else Unk                                             (* exp ln log: not modelled *)
   | [VNum v; VNum _] =>
     (* roundCash(v, places) as the code has it: places is ignored; the remainder of v by 1 is compared with
        decimal.New(5, -2), which is 500 (the second argument of New is a scale, the negated exponent), so the
